@@ -61,11 +61,38 @@ def bin_parts(obj):
     return ("sub", ("f", o, BINF, 0), C(0), 0), ("sub", ("f", o, BINF, 0), C(1), 0)
 
 
+# the two candidate-index formulas, as functions of ('p', 'fingerprint'), read off _indicies_from_fingerprint of the tree under
+# analysis (set by the rules before the ownership analysis runs): lets `finger % capacity` stand for candidate 0 of `finger`
+CAND_DEFS: List[tuple] = []
+
+
+def set_candidate_defs(prog, ctx) -> None:
+    from .common import paths
+    from .expr import canon
+    CAND_DEFS.clear()
+    try:
+        f = prog.method(ctx, "_indicies_from_fingerprint")
+    except Exception:
+        return
+    outs = set()
+    for p in paths(prog, ctx, f):
+        if p.exit[0] == "return" and strip_epochs(p.exit[1])[0] == "tup":
+            outs.add(tuple(canon(strip_epochs(x)) for x in strip_epochs(p.exit[1])[1]))
+    if len(outs) == 1 and len(f.params) >= 2:
+        CAND_DEFS.extend((f.params[-1], d) for d in next(iter(outs)))
+
+
 def cand_of(idx, tok: Token) -> bool:
     """is bucket index expression idx one of tok's candidates?"""
     idx = strip_epochs(idx)
     if idx in [strip_epochs(c) for c in tok.cands]:
         return True
+    if CAND_DEFS:
+        from .expr import canon, mapx
+        fg = strip_epochs(tok.finger)
+        for (pn, d) in CAND_DEFS:
+            if canon(idx) == canon(mapx(d, lambda n: fg if n == ("p", pn) else None)):
+                return True
     if idx[0] == "phi":
         return cand_of(idx[2], tok) and cand_of(idx[3], tok)
     if idx[0] == "call" and idx[1] == ("ext", "random", "choice") and idx[2] and idx[2][0][0] == "lst":
